@@ -231,7 +231,7 @@ def main(argv):
     for k in range(4 if quick else 30):
         texts.append(("groups", GG.gen(rng)[0]))
     for k in range(6 if quick else 40):
-        texts.append(("shared-groups", GG.gen_shared(rng)[0]))
+        texts.append(("shared-groups", GG.gen_shared(rng, force={0: "plain-first", 1: "plain-last"}.get(k))[0]))
     for k in range(4 if quick else 30):
         texts.append(("shared-payload-groups", GG.gen_shared_payload(rng)[0]))
 
